@@ -246,6 +246,35 @@ inline Result exec_c06(const Plan& plan)
                 }
             }
         }
+        else if(op.name == "torn")
+        {
+            // F5: the consumer looks at a slot while (or after) a producer died half-way: the slot holds what
+            // was there before (another frame of the same message, zeros, ones, noise) overwritten by the
+            // first j writes of a real producer (random-access setters or the cursor idiom) encoding this
+            // frame's value tree. j = 0 means "every step" (a complete encode over stale content).
+            if(c.group_view >= 0) continue;
+            const std::size_t size = f.bytes.size() + 32;
+            std::vector<u8> bg = slot_background(fs, size, (int)(op.uarg(1) % 4), op.uarg(2));
+            u8* p = sim::arena_place(size);
+            std::memcpy(p, bg.data(), size);
+            Req rq;
+            rq.msg = fs.msg;
+            rq.p = p;
+            rq.n = size;
+            rq.target = T_MESSAGE;
+            rq.sub = M_ENCODE;
+            rq.tree = &f.root;
+            rq.arg = op.uarg(3) & 1;
+            rq.arg2 = op.uarg(0);
+            Res rs;
+            Outcome o = call_driver(*fs.drv, rq, rs);
+            sim::stats().count(std::string("fault.applied.torn_encode.") + sim::out_name(o.kind));
+            if(o.kind != Out::DONE) continue; // the producer itself failed: not this property's subject (C10 runs the same producers)
+            sim::stats().count(rs.valid ? "probe.c06.torn.complete_encodes_over_stale_content" : "probe.c06.torn.partial_encodes");
+            bytes.assign(p, p + size);
+            n = bytes.size();
+            sf.clear(); // positions of the model frame no longer describe these bytes
+        }
         else if(op.name == "eval")
         {
             c.ctx_set_i = -1;
@@ -283,6 +312,21 @@ inline Plan gen_c06(u64 seed, const std::string& tier)
         if(wl.chance(1, 2)) p.set("gpath", std::to_string(wl.below(lv.groups.size())) + ":" + std::to_string(wl.below(2)) + (wl.chance(1, 3) ? "," + std::to_string(wl.below(2)) + ":0" : ""));
     }
     const int mode = (int)fl.below(10);
+    if(p.geti("group_view", -1) < 0 && root.fork("torn").chance(1, 6))
+    {
+        sim::Rng tl = root.fork("torn-args");
+        p.set("mode", "torn-encode-x-truncations");
+        Op o;
+        o.name = "torn";
+        // j: mostly small (the tear is early), sometimes 0 = complete encode over stale content
+        const long long j = tl.chance(1, 6) ? 0 : (long long)tl.range(1, tl.chance(1, 2) ? 8 : 60);
+        o.a = {j, (long long)tl.below(4), (long long)(tl.next() >> 20), (long long)tl.below(2)};
+        p.ops.push_back(o);
+        Op t;
+        t.name = "sweep_trunc";
+        p.ops.push_back(t);
+        return p;
+    }
     auto add = [&](const std::string& name, std::vector<long long> a) {
         Op o;
         o.name = name;
